@@ -15,9 +15,13 @@ EXTENDS Montgomery
 
 XParties == {"A", "B"}
 XSlots == {"W1", "W2"}
-XKinds == {"ephemeral", "reusable", "static"}
+XKinds == {"ephemeral", "reusable", "static", "ed"}
+\* kind "ed": an Ed25519 signing key used for key agreement, the documented interoperation path - the secret is
+\* StaticSecret::from(SigningKey::to_scalar_bytes()) (the UNclamped first half of SHA-512(seed)), the public key is
+\* VerifyingKey::to_montgomery(); the two must describe the same X25519 key pair
+XKey(kind, k) == IF kind = "ed" THEN SubSeq(SHA512(k), 1, LEN) ELSE k
 
-XNoSecret == [kind |-> "none", k |-> <<>>, live |-> FALSE]
+XNoSecret == [kind |-> "none", k |-> <<>>, seed |-> <<>>, live |-> FALSE]
 XNoWire == [u |-> <<>>, from |-> "none", fk |-> <<>>]
 XNoDH == [p |-> "none", w |-> "none", ss |-> <<>>, contributory |-> FALSE, peer |-> XNoWire, k |-> <<>>]
 XInitState == [sk |-> [p \in XParties |-> XNoSecret], wire |-> [w \in XSlots |-> XNoWire], last |-> XNoDH]
@@ -35,7 +39,7 @@ ASSUME LEN = 32 => BLt(BShl(One(LEN), 252, LEN), L)
 
 \* ---- transitions (each is one public call of x25519-dalek, or one move of the adversary) -----------------------
 XNewEnabled(st, p) == TRUE                              \* a new secret replaces (drops) the old one
-XNew(st, p, kind, k) == [st EXCEPT !.sk[p] = [kind |-> kind, k |-> k, live |-> TRUE]]
+XNew(st, p, kind, k) == [st EXCEPT !.sk[p] = [kind |-> kind, k |-> XKey(kind, k), seed |-> k, live |-> TRUE]]
 
 XPublishEnabled(st, p) == st.sk[p].live
 XPublish(st, p, w) == [st EXCEPT !.wire[w] = [u |-> XPub(st.sk[p].k), from |-> p, fk |-> st.sk[p].k]]
